@@ -6,6 +6,11 @@ BASE = "cd /repo && go test -mod=mod -json -vet=off -count=1 -timeout 25m ./..."
 
 CLAIMED = {
  # id: (category, text, design_ref, level_note, technique)
+ "C09": ("translation_validation",
+  "Every generated file is validated against its generator on every run: in a scratch copy of the working tree all 47 generated files are deleted, genny and ow-specgen are rebuilt from the tree/module cache and re-run, and each output is byte-compared with the checked-in file (orphans and missing files fail). In addition the type-checked program is inspected: each OW-SPEC model has exactly one catalogue registration under its name whose factory returns that type, and Description() lists parameters (name, default, range, dimensions), inputs, outputs, states in spec order, so a template defect that regenerates consistently is still reported.",
+  "DESIGN.md section 2, C09",
+  "The generators are the oracle and are executed (generator code only; no model, array or I/O code runs). OW-SPEC parsing in the checker mirrors ow-specgen's preprocessing and regular expression.",
+  "regenerate-and-diff translation validation + AST/SSA comparison of wrappers with parsed specs"),
  "C01": ("other",
   "Decides the shape of the index algebra for every element type and both back-ends: a unit-typed abstract interpretation (S storage cells, R allocated index, V view index; Start:S, Offset:S/R, Step:R/V, OffsetStep:S/V, loc:V) of every store to the stride fields, every index into the backing store and the result of Index, with helper functions analysed from their bodies; Slice shares the receiver's storage; every element access goes through Index(loc) of the same receiver. A stride-composition formula that is wrong for nested stepped slices has inconsistent units and is reported (this found the SliceInto defect, now fixed). Bounds and arithmetic beyond dimensional consistency are NOT decided.",
   "DESIGN.md section 2, C01",
